@@ -52,7 +52,16 @@ class BpNode:
         self.prefix = prefix  # concatenated
         self.domain = domain  # effective
         self.index_path = index_path  # tuple of op indexes leading here
-        self.ctor_ops = [o for o in ops if o["k"] == "ctor"]
+        # `import` ops register every constructor of the module (and its submodules) with its annotated lifecycle
+        self.ctor_ops = []
+        for o in ops:
+            if o["k"] == "ctor":
+                self.ctor_ops.append(o)
+            elif o["k"] == "import":
+                for cid, c in sorted(load_catalog().items()):
+                    mod = c.get("module") or ""
+                    if c["kind"] == "ctor" and (mod == o["module"] or mod.startswith(o["module"] + "::")):
+                        self.ctor_ops.append({"k": "ctor", "c": cid, "lc": "request_scoped", "from_import": o["module"]})
         self.prebuilt_ops = [o for o in ops if o["k"] == "prebuilt"]
         self.eh_ops = [o for o in ops if o["k"] == "eh"]
         self.children = []
